@@ -710,7 +710,11 @@ func zipLimitsMain(args []string) {
 				sort.Strings(fl)
 				m = "ok " + strings.Join(fl, ",")
 			}
-			if m != got {
+			if m != got && strings.HasPrefix(a, "err:tooLarge") && strings.HasPrefix(got, "ok") {
+				// the model is the statement of the limits: an archive it refuses as too large and the implementation extracts
+				// with success is a failing input of the property itself
+				rep.Fail(hx.Failure{Kind: "impl-violates-property", Key: "limit-not-enforced", Case: lines[i], Expected: "refused as too large (model: " + a + ")", Observed: "impl: " + got + " (" + descr[i] + ")"})
+			} else if m != got {
 				rep.Fail(hx.Failure{Kind: "model-impl-divergence", Key: "unzip-accounting", Case: lines[i], Expected: "model: " + a, Observed: "impl: " + got + " (" + descr[i] + ")"})
 			} else {
 				rep.Hist("model=impl")
